@@ -14,6 +14,9 @@ def run_queries(items, label, rng, tier, model_ok, budget_quick=2500, budget_tho
         if "panic" in r or "crash" in r:
             failures.append({"input": q, "why": "the library panicked: %s" % str(r)[:200], "kind": "panic"})
             continue
+        if "timeout" in r:
+            failures.append({"input": q, "why": "the library does not answer within %s s" % r["timeout"], "kind": "timeout"})
+            continue
         if oracle is None:
             continue
         f = oracle(r)
